@@ -312,7 +312,14 @@ pub fn block_case_run(ctx: &Ctx, c: &BlockCase, counting: bool) -> PResult {
 		let bv = tb.block.validate(&prev.total_kernel_offset);
 		match tb.stage {
 			Stage::Valid => ensure!(bv.is_ok(), format!("valid-block-body-rejected:{:?}", t), "Block::validate rejected a valid block ({:?}): {:?}", t, bv.err().map(|e| err_name(&e))),
-			Stage::BodyValidation | Stage::CoinbaseRule => ensure!(bv.is_err(), format!("corrupt-block-body-accepted:{:?}", t), "Block::validate accepted a corrupted block ({:?}, pick {})", t, pick),
+			Stage::BodyValidation | Stage::CoinbaseRule => {
+				ensure!(bv.is_err(), format!("corrupt-block-body-accepted:{:?}", t), "Block::validate accepted a corrupted block ({:?}, pick {})", t, pick);
+				if counting {
+					if let Err(e) = &bv {
+						ev.class(&format!("block_body_refusal:{}:{}", format!("{:?}", t).split('(').next().unwrap(), err_name(e)));
+					}
+				}
+			}
 			_ => {}
 		}
 		let res = cb.c().process_block(tb.block.clone(), opts(PowMode::Real));
@@ -334,6 +341,11 @@ pub fn block_case_run(ctx: &Ctx, c: &BlockCase, counting: bool) -> PResult {
 			}
 		} else {
 			ensure!(res.is_err(), format!("corrupt-block-accepted:{:?}", t), "corrupted block ({:?}, pick {}, expected stage {:?}) accepted; specs {:?}", t, pick, tb.stage, specs);
+			if counting {
+				if let Err(e) = &res {
+					ev.class(&format!("block_refusal:{}:{}", format!("{:?}", t).split('(').next().unwrap(), err_name(e)));
+				}
+			}
 			let h = cb.c().head().map_err(|e| Fail::new("head-err", format!("{:?}", e)))?;
 			ensure!(h.last_block_h == head_before.last_block_h, "head-moved-by-rejected-block", "head changed by rejected block {:?}", t);
 		}
